@@ -1,5 +1,21 @@
+/-
+  C14 — a job with a time limit is armed with alarm(⌈limit / 1 s⌉).
+
+  The pipeline, as functions: the user's DURATION text → `idiffStrp` → the task's duration in
+  milliseconds → (echsd, `vtodoify`) the text `PT<n>S` with `n = durSecs ms` → (echsx) `idiffStrp`
+  → milliseconds → `alarmArg` → the argument of alarm(2).
+    * `durSecs_ceil`: `durSecs` is the ceiling of ms / 1000;
+    * `vtodo_roundtrip`: what echsd writes is read back by echsx as exactly `durSecs ms` seconds;
+    * `alarm_pipeline`: for every limit of at least one second the alarm is `⌈limit / 1 s⌉ ≥ 1`
+      (0 would mean "no timeout");
+    * `user_forms`: for every ISO spelling of a positive whole number `n` of seconds the alarm is `n`;
+    * `due_decision`: the DUE branch refuses an overdue job and otherwise arms `alarm(due − now)`.
+  The bound `durSecs ms < 2^32` is the range of `ui32tostr`.
+  Uses the duration theorems of Echse/Props/C18.lean (`idiff_spellings_nat`).
+-/
 import Echse.Model.Daemon
 import Echse.Model.Strpf
+import Echse.Props.C18
 namespace C14
 open Echse.Daemon Echse.Strpf
 
@@ -9,7 +25,124 @@ def vtodoDuration (ms : Nat) : List Char := "PT".toList ++ tostr (durSecs ms) ++
 /-- what echsx passes to alarm(2) for a parsed timeout of `ms` milliseconds -/
 def alarmArg (ms : Int) : Int := ms / 1000 + (if ms % 1000 ≠ 0 then 1 else 0)
 
-/-- smoke (general statement replaces this): a 1.5 s limit arms a 2 s alarm -/
+/-! ### 1. seconds from milliseconds -/
+
+theorem durSecs_ceil (ms : Nat) :
+    durSecs ms = (ms + 999) / 1000 ∧
+    (0 < ms → durSecs ms * 1000 ≥ ms ∧ (durSecs ms - 1) * 1000 < ms) := by
+  unfold durSecs
+  split <;> omega
+
+theorem durSecs_pos (ms : Nat) (h : 0 < ms) : 1 ≤ durSecs ms := by
+  unfold durSecs
+  split <;> omega
+
+/-- a whole number of seconds is kept -/
+theorem durSecs_whole (n : Nat) : durSecs (n * 1000) = n := by
+  unfold durSecs
+  split <;> omega
+
+/-! ### 2. echsd → echsx -/
+
+/-- the text is the spelling `PT<n>S` of C18 -/
+theorem vtodoDuration_spelling (ms : Nat) :
+    vtodoDuration ms =
+      [] ++ 'P' :: durBody (Option.map tostr none) (Option.map tostr none) (Option.map tostr none)
+        (Option.map tostr none) (Option.map tostr (some (durSecs ms))) := by
+  simp [vtodoDuration, durBody, tpart, part]
+
+theorem vtodo_roundtrip (ms : Nat) (h : durSecs ms < 2^32) :
+    (idiffStrp (vtodoDuration ms) (vtodoDuration ms).length).1 = (durSecs ms : Int) * 1000 := by
+  have hs := C18.idiff_spellings_nat [] none none none none (some (durSecs ms))
+    (by simp) (by simp) (by simp) (by simp) (by intro v hv; cases hv; exact h) (Or.inl rfl)
+  rw [vtodoDuration_spelling]
+  simpa using hs
+
+/-! ### 3. the alarm -/
+
+/-- whole seconds are passed on unchanged -/
+theorem alarmArg_whole (n : Int) : alarmArg (n * 1000) = n := by
+  unfold alarmArg
+  split <;> omega
+
+/-- `alarmArg` is the ceiling as well -/
+theorem alarmArg_ceil (ms : Int) : alarmArg ms = (ms + 999) / 1000 := by
+  unfold alarmArg
+  split <;> omega
+
+theorem alarm_pipeline (ms : Nat) (h1 : 1000 ≤ ms) (h : durSecs ms < 2^32) :
+    alarmArg (idiffStrp (vtodoDuration ms) (vtodoDuration ms).length).1 = durSecs ms ∧
+    1 ≤ durSecs ms ∧ durSecs ms = (ms + 999) / 1000 := by
+  rw [vtodo_roundtrip ms h, alarmArg_whole]
+  exact ⟨rfl, durSecs_pos ms (by omega), (durSecs_ceil ms).1⟩
+
+/-- in fact every positive limit (also below one second) is armed with at least 1 -/
+theorem alarm_never_zero (ms : Nat) (h1 : 0 < ms) (h : durSecs ms < 2^32) :
+    1 ≤ alarmArg (idiffStrp (vtodoDuration ms) (vtodoDuration ms).length).1 := by
+  rw [vtodo_roundtrip ms h, alarmArg_whole]
+  have := durSecs_pos ms h1
+  omega
+
+/-! ### 4. user-supplied forms -/
+
+/-- A DURATION `[+]P[wW][dD][T[hH][mM][sS]]` (every part optional, numbers below 2^32 printed
+canonically) denoting `n ≥ 1` seconds in total: the daemon-side duration is `n · 1000` ms, and the
+executor arms `alarm(n)`. -/
+theorem user_forms (sign : List Char) (w d h mi s : Option Nat)
+    (hw : ∀ v, w = some v → v < 2^32) (hd : ∀ v, d = some v → v < 2^32) (hh : ∀ v, h = some v → v < 2^32)
+    (hm : ∀ v, mi = some v → v < 2^32) (hs : ∀ v, s = some v → v < 2^32)
+    (hsign : sign = [] ∨ sign = ['+'])
+    (n : Nat) (hn : n = (w.getD 0 * 7 + d.getD 0) * 86400 + h.getD 0 * 3600 + mi.getD 0 * 60 + s.getD 0)
+    (h1 : 1 ≤ n) (h32 : n < 2^32) :
+    let text := sign ++ 'P' :: durBody (w.map tostr) (d.map tostr) (h.map tostr) (mi.map tostr) (s.map tostr)
+    let dur := (idiffStrp text text.length).1            -- the task's duration in echsd, milliseconds
+    dur = (n : Int) * 1000 ∧
+    alarmArg (idiffStrp (vtodoDuration dur.toNat) (vtodoDuration dur.toNat).length).1 = n := by
+  intro text dur
+  have hs := C18.idiff_spellings_nat sign w d h mi s hw hd hh hm hs
+    (by rcases hsign with r | r <;> simp [r])
+  have hne : sign ≠ ['-'] := by rcases hsign with r | r <;> simp [r]
+  have hdur : dur = (n : Int) * 1000 := by
+    show (idiffStrp text text.length).1 = _
+    rw [hs, if_neg hne, hn]
+    omega
+  refine ⟨hdur, ?_⟩
+  have hnat : dur.toNat = n * 1000 := by omega
+  rw [hnat]
+  have hds : durSecs (n * 1000) = n := durSecs_whole n
+  have := (alarm_pipeline (n * 1000) (by omega) (by rw [hds]; exact h32)).1
+  rw [this, hds]
+
+/-! ### 5. the DUE branch -/
+
+/-- the executor's DUE branch: refuse when overdue, else arm `alarm(due − now)` -/
+def dueDecision (due now : Int) : Option Int := if now ≥ due then none else some (due - now)
+
+theorem due_decision (due now : Int) :
+    (dueDecision due now = none ↔ now ≥ due) ∧
+    (∀ a, dueDecision due now = some a → 0 < a ∧ now + a = due) := by
+  unfold dueDecision
+  constructor
+  · split <;> simp_all
+  · intro a
+    split
+    · simp
+    · intro h
+      cases h
+      omega
+
+/-- not overdue: armed with exactly the remaining time -/
+theorem due_armed (due now : Int) (h : now < due) : dueDecision due now = some (due - now) := by
+  unfold dueDecision
+  rw [if_neg (by omega)]
+
+-- concrete instances
+example : vtodoDuration 1500 = ['P', 'T', '2', 'S'] := by decide
+example : alarmArg (idiffStrp (vtodoDuration 1000) (vtodoDuration 1000).length).1 = 1 := by decide
+/-- a 1.5 s limit arms a 2 s alarm; name referenced by evidence/C14.json -/
 theorem limit_1500ms : alarmArg (idiffStrp (vtodoDuration 1500) (vtodoDuration 1500).length).1 = 2 := by decide
+example : alarmArg (idiffStrp (vtodoDuration 61000) (vtodoDuration 61000).length).1 = 61 := by decide
+example : (idiffStrp ['P', 'T', '1', 'M', '1', 'S'] 6).1 = 61000 := by decide
+example : dueDecision 100 100 = none ∧ dueDecision 100 130 = none ∧ dueDecision 100 97 = some 3 := by decide
 
 end C14
